@@ -113,6 +113,14 @@ impl WhirlpoolRewardInfo {
 //@ end
 }
 
+/// the pool account after a swap result has been written: price, tick, liquidity, rewards and timestamp replaced, growth and protocol share on the fee (input) side only
+pub open spec fn after_swap(w: Whirlpool, liquidity: u128, tick_index: i32, sqrt_price: u128, fee_growth_global: u128, reward_infos: [WhirlpoolRewardInfo; NUM_REWARDS], protocol_fee: u64, fee_in_a: bool, ts: u64) -> Whirlpool {
+    Whirlpool { tick_current_index: tick_index, sqrt_price: sqrt_price, liquidity: liquidity, reward_infos: reward_infos, reward_last_updated_timestamp: ts,
+        fee_growth_global_a: if fee_in_a { fee_growth_global } else { w.fee_growth_global_a },
+        fee_growth_global_b: if fee_in_a { w.fee_growth_global_b } else { fee_growth_global },
+        protocol_fee_owed_a: if fee_in_a { (w.protocol_fee_owed_a + protocol_fee) as u64 } else { w.protocol_fee_owed_a },
+        protocol_fee_owed_b: if fee_in_a { w.protocol_fee_owed_b } else { (w.protocol_fee_owed_b + protocol_fee) as u64 }, ..w }
+}
 impl Whirlpool {
 //@ fn state/whirlpool.rs update_after_swap in=/^impl Whirlpool \{/ tags=C06,C03,C01
     requires
@@ -131,6 +139,8 @@ impl Whirlpool {
         final(self).fee_rate == old(self).fee_rate, final(self).protocol_fee_rate == old(self).protocol_fee_rate,
         final(self).token_mint_a == old(self).token_mint_a, final(self).token_mint_b == old(self).token_mint_b,
         final(self).token_vault_a == old(self).token_vault_a, final(self).token_vault_b == old(self).token_vault_b,
+        // nothing else changes
+        *final(self) == after_swap(*old(self), liquidity, tick_index, sqrt_price, fee_growth_global, reward_infos, protocol_fee, is_token_fee_in_a, reward_last_updated_timestamp),
 //@ end
 //@ fn state/whirlpool.rs reset_protocol_fees_owed in=/^impl Whirlpool \{/ tags=C06,C01
     ensures final(self).protocol_fee_owed_a == 0, final(self).protocol_fee_owed_b == 0,
